@@ -60,7 +60,20 @@ def main():
     finally:
         if scratch:
             sh(["git", "-C", "/repo", "worktree", "remove", "--force", scratch])
-    with open(os.path.join(VERIF, "seeded", "RESULTS.md"), "w") as fh:
+        # the checks regenerate lean/FunGen from the tree they ran against: bring it back to /repo's
+        sh(["go", "run", ".", "-repo", "/repo", "-out", os.path.join(VERIF, "lean", "FunGen")],
+           cwd=os.path.join(VERIF, "tools", "go2lean"),
+           env=dict(os.environ, GOFLAGS="-mod=mod", GOPROXY="off", GOSUMDB="off", GOTOOLCHAIN="local"))
+    # keep the rows of earlier (partial) runs for changes not re-run now
+    res = os.path.join(VERIF, "seeded", "RESULTS.md")
+    done = {(r[0], r[1]) for r in rows}
+    if os.path.exists(res):
+        for line in open(res):
+            c = [x.strip() for x in line.strip().strip("|").split(" | ")]
+            if len(c) == 4 and c[0] not in ("seeded change", "---") and (c[0], c[1]) not in done:
+                rows.append(tuple(c))
+    rows.sort()
+    with open(res, "w") as fh:
         fh.write(f"# Seeded breaking changes vs. checks (tier {a.tier})\n\n| seeded change | check | verdict | first VIOLATION line |\n|---|---|---|---|\n")
         for r in rows:
             fh.write("| " + " | ".join(x.replace("|", "\\|") for x in r) + " |\n")
